@@ -12,7 +12,7 @@ VARIABLE l
 Init == l = 1
 Bound(tl) == CASE tl = -8 -> -11 [] tl = -11 -> -16 [] tl = -14 -> -21
 Step(ev) == \/ ev.out = "err"
-            \/ /\ ev.out = "ok" /\ ev.finite = TRUE /\ ev.predict_is_inverse_link = TRUE
+            \/ /\ ev.out = "ok" /\ ev.finite = TRUE /\ ev.predict_is_inverse_link = TRUE /\ ev.deviance_is_definition = TRUE
                \* the score is measured against the size of its own terms, or - where the terms themselves vanish (separated
                \* Bernoulli data: fitted probabilities at 0 / 1, all residual terms of one sign) - against the scale of the data
                \* sum_i w_i |x_ij| max(1, |y_i|); either way to within the same function of the tolerance
